@@ -197,6 +197,10 @@ def _files_info(w: _W, members, layout):
             body = encode_defined_vector([v is not None for v in vals], explicit) + b"\x00"
             body += b"".join(struct.pack("<Q", v) for v in vals if v is not None)
             _prop(w, pid, body)
+    if layout.get("startpos"):
+        dv = [i % 3 != 1 for i in range(n)]
+        body = encode_defined_vector(dv, explicit) + b"\x00" + b"".join(struct.pack("<Q", (i * 0x0101010101) & ((1 << 64) - 1)) for i, d_ in enumerate(dv) if d_)
+        _prop(w, 0x18, body)
     if layout.get("dummy2") is not None:
         _prop(w, 0x19, bytes(layout["dummy2"]))
     vals = [m.get("attributes") for m in members]
@@ -244,7 +248,8 @@ def build(members, layout=None, password=None, rng=None, token_hook=None, header
             sub_crcs = [c if i % 2 == 0 else None for i, c in enumerate(sub_crcs)]
         folders.append(dict(coders=coders, sizes=sizes, folder_crc=folder_crc, sub_sizes=[len(m["data"]) for m in mine], sub_crcs=sub_crcs))
         pack_sizes.append(len(packed))
-        pack_crcs.append(crc32(packed) if layout.get("pack_crc") else None)
+        pc = layout.get("pack_crc")
+        pack_crcs.append(crc32(packed) if (pc is True or (pc == "partial" and len(pack_crcs) % 2 == 1) or (pc and pc != "partial")) else None)
         body += packed
         gap = fs.get("gap_after", 0)
         if gap:
